@@ -111,11 +111,15 @@ def build_merge():
   T.add(Contract(
       MRO_PY, 'MergeSequences', collections.OrderedDict(seqs=SS),
       requires=pre,
-      ensures=['same(hist[0], old(seqs))', chain % ('result', 'result'), 'allempty(hist[len(result)])'],
+      ensures=['same(hist[0], old(seqs))', chain % ('result', 'result'), 'allempty(hist[len(result)])',
+               # every class of the result occurs in one of the input rows
+               'all(any(x in old(seqs)[k] for k in range(len(old(seqs)))) for x in result)'],
       raises_ensures={'ValueError': ['same(hist[0], old(seqs))', chain % ('res', 'res'),
                                      'not allempty(hist[len(res)])', 'nocand(hist[len(res)])']},
       loops={
-          0: Loop(['same(hist[0], old(seqs))', chain % ('res', 'res'), 'same(hist[len(res)], seqs)'] + pre,
+          0: Loop(['same(hist[0], old(seqs))', chain % ('res', 'res'), 'same(hist[len(res)], seqs)',
+                   'all(any(x in old(seqs)[k] for k in range(len(old(seqs)))) for x in res)',
+                   'len(seqs) == len(old(seqs))', 'all(all(y in old(seqs)[k] for y in seqs[k]) for k in range(len(seqs)))'] + pre,
                   ghost_init=['hist = const_seq(seqs)'],
                   ghost_end=['hist = store(hist, len(res), seqs)'],
                   lemmas=['len(head(0, seqs)[i]) > 0 and same(head(0, seqs)[i][0], cand)',
@@ -132,7 +136,7 @@ def build_merge():
           1: Loop(['same(seqs, entry(1, seqs))',
                    'all(len(seqs[k]) == 0 or not good(seqs, seqs[k][0]) for k in range(i))',
                    'implies(any(len(seqs[k]) > 0 for k in range(i)), cand is None)'], index='i'),
-          2: Loop(['len(seqs) == len(entry(2, seqs))',
+          2: Loop(['len(seqs) == len(entry(2, seqs))', 'all(all(y in entry(2, seqs)[k] for y in seqs[k]) for k in range(len(seqs)))',
                    'all(stepped(seqs[k], entry(2, seqs)[k], cand) for k in range(m))',
                    'all(same(seqs[k], entry(2, seqs)[k]) for k in range(m, len(seqs)))'], index='m'),
       },
@@ -144,7 +148,8 @@ def build_merge():
   T.add(Contract(
       MRO_PY, 'MROMerge', collections.OrderedDict(input_seqs=SS),
       requires=[nos],
-      ensures=dd + [chain % ('result', 'result'), 'allempty(hist[len(result)])'],
+      ensures=dd + [chain % ('result', 'result'), 'allempty(hist[len(result)])',
+                    'all(any(x in input_seqs[k] for k in range(len(input_seqs))) for x in result)'],
       raises_ensures={'MROError': dd + [chain % ('res', 'res'), 'not allempty(hist[len(res)])', 'nocand(hist[len(res)])']},
       result=SeqE, ghost={'seqs': SS}, ghost_out={'hist': Hist, 'res': SeqE, 'seqs': SS}))
   return T
@@ -161,11 +166,6 @@ def build_compute_mro():
   for c in T.contracts.values():
     c.verify = False
     c.note = 'proved in the first theory'
-    if c.qualname == 'MROMerge':
-      # A-MERGE-ELEMS (assumed, not proved in the first theory: needs an induction over the step chain): every class of the
-      # merge result occurs in one of the input rows.  Only used for the absence of KeyError in `base2cls[base]`.
-      c.ensures = list(c.ensures) + ['all(any(x in input_seqs[k] for k in range(len(input_seqs))) for x in result)']
-      c.note = 'proved in the first theory, except the added clause A-MERGE-ELEMS (result elements occur in the input rows): assumed'
   T.lemmas = []
   E = T.sorts['Cls']
   SeqE = S.Seq(E)
@@ -196,7 +196,6 @@ def build_compute_mro():
       'second theory (Class.compute_mro): classes are opaque values; base.mro, base.base_cls and isinstance(base, ParameterizedClass) are stable reads; '
       'abstract_utils.get_mro_bases(self.bases()) is an opaque function of the class (it picks data[0] of every base variable: unverified)',
       'strip(c) = c.base_cls for a ParameterizedClass, c otherwise: CPython linearises the unparameterised classes',
-      'A-MERGE-ELEMS: every class of MROMerge\'s result occurs in one of its input rows (assumed; used only for the absence of KeyError in base2cls[base])',
       'precondition: no class involved is a SINGLETON (as in the first theory)',
   ]
   nrows = 'len(bases0(self)) + 2'
